@@ -40,6 +40,9 @@ func checkC05(c *Ctx, r *Report) {
 	c05R1(c, r)
 	c05R2(c, r)
 	c05R3(c, r)
+	selectorMaskedInText(c, r, "C05.R3.selector-masked")
+	emptyAlpnAccepted(c, r, "C05.R3.empty-alpn")
+	gatewayTypeDecides(c, r, "C05.R3.gateway-type-decides")
 	c05R4(c, r)
 	c05R5(c, r)
 	c05R6(c, r)
